@@ -102,9 +102,9 @@ def run(ids):
     return out
 
 
-def _fast_one(name):
+def _fast_one(name, base_name='seeded'):
     import shutil, tempfile
-    d = os.path.join(HERE, 'seeded', name)
+    d = os.path.join(HERE, base_name, name)
     tmp = tempfile.mkdtemp(prefix='pjx_seed_', dir='/tmp')
     try:
         shutil.copytree('/repo/pjrpc', os.path.join(tmp, 'pjrpc'))
@@ -124,17 +124,36 @@ def _fast_one(name):
         shutil.rmtree(tmp, ignore_errors=True)
 
 
-def fast(ids):
+def import_neutral(wt, area):
+    import glob, shutil
+    out = []
+    for f in sorted(glob.glob(os.path.join(wt, 'REFACTOR_R*.diff'))):
+        k = os.path.basename(f)[len('REFACTOR_'):-len('.diff')]
+        d = os.path.join(HERE, 'seeded_neutral', f'{area}-{k}')
+        os.makedirs(d, exist_ok=True)
+        shutil.copy(f, os.path.join(d, 'patch.diff'))
+        notes = open(os.path.join(wt, 'NOTES.md')).read() if os.path.exists(os.path.join(wt, 'NOTES.md')) else ''
+        json.dump({'kind': 'behaviour-preserving refactoring written by an independent sub-agent (suite unchanged; transcript of an '
+                           'edge-case exerciser identical before/after)', 'area': area, 'notes': notes}, open(os.path.join(d, 'meta.json'), 'w'), indent=1)
+        out.append(d)
+    return out
+
+
+def fast(ids, base_name='seeded'):
     """Development aid: evaluate the seeded patches on scratch copies (PJX_REPO) in parallel; evidence files are not touched."""
     from concurrent.futures import ProcessPoolExecutor
-    base = os.path.join(HERE, 'seeded')
+    base = os.path.join(HERE, base_name)
     names = [n for n in sorted(os.listdir(base)) if os.path.isdir(os.path.join(base, n)) and (not ids or n in ids or n.split('-')[0] in ids or any(n.startswith(i) for i in ids))]
     out = {}
+    import functools
     with ProcessPoolExecutor(14) as ex:
-        for name, fired in ex.map(_fast_one, names):
+        for name, fired in ex.map(functools.partial(_fast_one, base_name=base_name), names):
             out[name] = fired
             target = name.split('-')[0]
             t = fired.get(target)
+            if base_name != 'seeded':
+                print(f'{name}: {"SILENT" if not fired else "ALARM " + str(fired)}')
+                continue
             verdict = 'CAUGHT by ' + str(t) if t and not str(t).startswith("['ANALYSIS") else ('ANALYSIS-ERROR in target' if t else 'MISSED by target')
             print(f'{name}: target {target} -> {verdict}; all: {fired}')
     return out
@@ -150,3 +169,5 @@ if __name__ == '__main__':
         run(sys.argv[2:])
     elif cmd == 'fast':
         fast(sys.argv[2:])
+    elif cmd == 'neutral':
+        fast(sys.argv[2:], base_name='seeded_neutral')
